@@ -1,5 +1,5 @@
 """What MANIFEST.json claims, per property (edited as checks go green)."""
-HOOK_COMMITS = ["3b06268", "175c5a9", "8b9ca65", "bfbbd83", "c7825ef", "dbd50df", "069efd0", "b54cdaa", "7cccc24"]
+HOOK_COMMITS = ["3b06268", "175c5a9", "8b9ca65", "bfbbd83", "c7825ef", "dbd50df", "069efd0", "b54cdaa", "7cccc24", "5bdb6c9", "dfcda43"]
 NOT_APPLICABLE = {}
 TB = ("Trusted: Lean 4.33.0 kernel (thorough: + leanchecker); axioms at most propext, Classical.choice, Quot.sound "
       "(audited by #print axioms on every run); the translator extract/ and the differential harness (testing, not proof). ")
@@ -69,10 +69,12 @@ CLAIMS = {
   "technique": "Lean 4 proof (negotiation specification, msize monotone and >= IOHDRSZ, every reply fits msize, frame-size gate) + differential correspondence",
   "text": "negotiate_spec (refuse iff client msize < 24; else msize=min, .u iff both), rversion_fits, msize_monotone, "
           "no_reply_exceeds_msize (every reply of every request under every implementation answer is <= msize bytes on the wire, "
-          "including shortened errors), frame_size_gate (a frame longer than msize ends the connection unexecuted). Correspondence: "
-          "negotiation grid and renegotiation mid-history against the real server; oracle checks lengths of real reply frames.",
-  "note": TB + "Client-side Connect, the dialect of Rstat/Rerror encodings and Rread<=count for Ufs are checked by the harness oracle; "
-          "their theorems live with C09/C14 when built.",
+          "including shortened errors), frame_size_gate (a frame longer than msize ends the connection unexecuted), both_sides_agree (the client's "
+          "Connect against the framework: both ends hold min(client, server) and 9P2000.u exactly when both asked, for every client msize "
+          ">= 24). Correspondence: negotiation grid and renegotiation mid-history against the real server; the real Connect against the real "
+          "server over a grid of msizes around each other and around the I/O header, both dialects on both sides (G9.Version.connect); "
+          "oracle checks lengths of real reply frames.",
+  "note": TB + "The dialect of Rstat/Rerror encodings and Rread<=count for Ufs are checked by the harness oracle.",
  },
  "C13": {
   "technique": "Lean 4 proof (segmentation independence of the receive loop by an append lemma; loop termination; buffer-aliasing and non-empty-window invariants over all step sequences) + differential correspondence with forced segmentations",
@@ -90,7 +92,9 @@ CLAIMS = {
   "technique": "Lean 4 proof (Readn/Written loops, iounit clamping, offsets; for all file contents, lengths, offsets, counts, iounits) + OS-oracle correspondence on real files",
   "text": "read_exact, readn_exact (Readn returns exactly (file.drop off).take n for every file, offset, n and iounit>=1, also across EOF, and "
           "terminates), written_pieces (Written sends consecutive pieces of at most iounit bytes covering the data exactly once, in order), "
-          "read_le_count. Correspondence: real client and Ufs over files of boundary lengths, msize 128..64K, both dialects, random operation "
+          "read_le_count, sequential_reads_are_consecutive (any sequence of File.Read calls returns consecutive pieces of the file, nothing skipped "
+          "or repeated), chunked_writes_equal_one_write (consecutive writes leave the file as one write of the whole data would). "
+          "Correspondence: real client and Ufs over files of boundary lengths, msize 128..64K, both dialects, random operation "
           "sequences; oracle os.ReadFile; Readn result lengths compared with the Lean loop.",
   "note": TB + "Partial by nature: what the operating system does (Lstat, ReadAt/WriteAt, Readdir, the mutating calls) is assumed, written down in the model and exercised by the OS-oracle correspondence; what go9p computes around those calls is proved. ",
  },
@@ -147,7 +151,8 @@ CLAIMS = {
   "text": "no_stuck_state (in every state each call in progress is either waiting for the peer on a live connection or has an enabled step of its "
           "own), fanout_wakes_all (after a failure pend.length fan-out steps wake every pending call exactly once, in order), later_calls_refused "
           "(refused in the critical section, no tag consumed), no_false_success (a success result can only come from a delivered frame with the "
-          "call's tag). Correspondence: stream cut after every byte offset, garbage/oversize/undersize/unknown-tag frames, Unmount, a caller "
+          "call's tag), delivered_reply_is_kept (a reply that was completely received stays the caller's through any later failure, fan-out or "
+          "other caller's activity until that caller takes it). Correspondence: stream cut after every byte offset, garbage/oversize/undersize/unknown-tag frames, Unmount, a caller "
           "parked between enqueue and hand-off during the failure; oracle: all calls return, success iff the reply was complete.",
   "note": TB + "'within bounded time' is observed (8 s watchdog), not proved; fairness of the Go scheduler assumed. The real-code race between "
           "the writer goroutine and ReqFree is outside the model (found and fixed through the correspondence, see DESIGN).",
@@ -192,11 +197,13 @@ CLAIMS = {
           "model. Over G9.FidLife (every interleaving of the regions of FidNew/FidGet/retain/IncRef/DecRef/destroy/Conn.close): "
           "fid_destroyed_at_most_once, disconnect_destroys_every_fid (once Conn.close and the executing requests have run to their end, "
           "every fid object — valid, being created, or created afterwards — has been reported destroyed exactly once), "
-          "no_destroy_while_being_created, valid_fid_alive_while_open, refcount_is_owners. Correspondence: disconnects with fids in every state and 0..4 requests executing; every log accepted by the model; "
+          "never_destroyed_under_a_request (from the moment destroy() marks a fid no request holds it, and FidGet hands none out: "
+          "dead_fid_is_not_handed_out), no_destroy_while_being_created, valid_fid_alive_while_open, refcount_is_owners, "
+          "fid_teardown_never_stuck; the three repaired behaviours (F-29, F-30, F-31) are theorems about the old regions "
+          "(stale_retain_leaks_a_fid, unpool_by_number_loses_a_valid_fid, close_destroys_under_a_request). Correspondence: disconnects with fids in every state and 0..4 requests executing; every log accepted by the model; "
           "oracle: ConnClosed once, every valid fid destroyed exactly once, goroutine census back to baseline, bystander untouched.",
-  "note": TB + "ConnClosed accounting and goroutine/descriptor leaks are observed on the implementation, not proved. Files of a "
-          "Topen/Tcreate still executing at the disconnect (Ufs) are not yet covered (K-4, DESIGN). Two racing releases of the table's "
-          "reference to one fid (two concurrent Tclunk of the same fid) are outside the fid-table model.",
+  "note": TB + "ConnClosed accounting and goroutine/descriptor leaks are observed on the implementation, not proved (descriptors of the "
+          "Unix file server are counted after disconnects with Topen/Tcreate executing).",
  },
  "C19": {
   "technique": "Lean 4 proof (lock-set soundness for all executions of an abstract mutex model; lock policy decided by kernel computation over access facts regenerated from the source) + race-detector correspondence",
